@@ -95,6 +95,58 @@ def _sort_confined_by_conditions(ctx, r3, P, body, O, cs):
     return True
 
 
+def _partition_form(P, b, sorts):
+    """the same order produced as `let (root, additions) = fields.split_at_mut(root_len); root.sort_by_key(tag);
+    additions.sort_by_key(tag)`: None when the function has another form, else (ok, what is wrong, facts)"""
+    splits = [cs for cs in b.calls() if cs.name in ("split_at_mut", "split_at")]
+    if not splits or len(sorts) != 2 or not all(cs.name in ("sort_by_key", "sort_by_cached_key") for cs in sorts):
+        return None
+    O = X.Origins(b, P)
+    sp = splits[0]
+    pn = b.param_names()
+    ext_p = next((i for i, nm in pn.items() if nm == "extended_after_index"), None)
+    idx = X.strip(O.call_args(sp)[1])
+    facts = {"form": "partition at the root length, then sort both parts by tag", "split_index": F.rd(R.positional(idx))[:160]}
+    ok_idx = False
+    if idx[0] == "call" and X.last_seg(idx[1] or "") == "map_or" and len(idx[3]) == 3:
+        recv, dflt, cl = (X.strip(a) for a in idx[3])
+        while recv[0] in ("ref", "deref"):
+            recv = X.strip(recv[1])
+        c0 = cl
+        while c0[0] in ("ref", "deref", "mut"):
+            c0 = c0[1]
+        if recv[0] == "param" and recv[1] == ext_p and re.match(r"^slice::len\(\$1\)$|^Vec::len\(", F.rd(R.positional(dflt))) \
+                and c0[0] == "agg" and c0[1] == "closure":
+            cb = P.bodies.get("%s::%s" % (b.crate, c0[2]))
+            if cb is not None:
+                Oc = X.Origins(cb, P)
+                rets = [Oc.rvalue(d[3], d[0], d[1], 0) for d in cb.defs.get(0, ()) if d[2] == "assign"]
+                if len(rets) == 1:
+                    base, k = F.linear(rets[0])
+                    base = F.strip_casts(base) if base is not None else None
+                    ok_idx = k == 1 and base is not None and base[0] == "param" and base[1] == 2
+    if not ok_idx:
+        return False, "the fields are split at `%s`, not at the number of root components (extension index + 1, or all of them without a marker): " \
+                      "root components would not all precede extension additions" % facts["split_index"][:80], facts
+    halves = set()
+    for cs in sorts:
+        r = X.strip(O.call_args(cs)[0])
+        while r[0] in ("ref", "deref", "mut"):
+            r = X.strip(r[1])
+        if r[0] == "field" and X.strip(r[1])[0] == "call" and X.last_seg(X.strip(r[1])[1] or "") == sp.name:
+            halves.add(r[2])
+    keys = [(cs.fn.get("args") or ["", ""])[1] for cs in sorts]
+    facts["sorted_parts"] = sorted(halves)
+    facts["key_types"] = keys
+    if halves != {"0", "1"}:
+        return False, "only the part(s) %s of the split are sorted" % sorted(halves), facts
+    if not all("Tag" in k and not k.startswith("(") for k in keys):
+        return False, "the parts are sorted by `%s`, not by the tag" % keys, facts
+    if any(cs.name in ("reverse", "rev") for c in [b] + P.closures_of(b) for cs in c.calls()):
+        return False, "the order is reversed", facts
+    return True, "", facts
+
+
 def r2_r3(ctx):
     r2 = "C16.R2"
     r3 = "C16.R3"
@@ -113,7 +165,15 @@ def r2_r3(ctx):
     sorts = [cs for cs in b.calls() if cs.name in ("sort_by", "sort", "sort_by_key", "sort_unstable_by", "sort_by_cached_key")]
     detail = {"function": b.path, "sort_calls": [X.short(c.callee) for c in sorts],
               "key_types": [cs.fn.get("self_ty") for _, cs in cmps]}
-    if not sorts:
+    partition = _partition_form(P, b, sorts)
+    if partition is not None:
+        ok_p, why, d_p = partition
+        detail.update(d_p)
+        if ok_p:
+            ctx.ok(r2, "key-type", detail)
+        else:
+            ctx.fail(r2, "key-type", why, sorts[0].loc(), detail)
+    elif not sorts:
         ctx.fail(r2, "sort-call", "sort_fields_canonically no longer sorts", "%s:%d" % (b.file, b.line), detail)
     elif not cmps and not any(cs.name in ("sort_by_key", "sort_by_cached_key", "sort") for cs in sorts):
         ctx.fail(r2, "anchor-lost:key-comparison", "no Ord::cmp call found in the comparison closure", "%s:%d" % (b.file, b.line), detail)
@@ -189,7 +249,16 @@ def r2_r3(ctx):
             flag_ok = True
         if "extended_after_index" in rt and "extended_after_index" not in lt and cm.boundary == 1:
             flag_ok = True
+    item_helpers = []
     for c in [b] + closures:
+        for cs in c.calls():
+            for a in cs.args:
+                if a.get("k") == "const" and isinstance(a.get("fn"), dict):
+                    nm = a["fn"].get("resolved") or a["fn"].get("def") or ""
+                    hb = P.bodies.get("%s::%s" % (b.crate, nm)) or P.bodies.get(nm) or (getattr(P, "helper_bodies", {}) or {}).get("%s::%s" % (b.crate, nm))
+                    if hb is not None and hb.file == b.file and hb not in item_helpers:
+                        item_helpers.append(hb)       # `.map(Self::with_canonical_tag)`
+    for c in [b] + closures + item_helpers:
         O = X.Origins(c, P)
         for cs in c.calls():
             if cs.name == "or_else" and "tag" in X.render(O.call_args(cs)[0]):
@@ -212,7 +281,12 @@ def r2_r3(ctx):
                     elif e[0] == "discr" and "tag" in X.render(e[1]) and not val:
                         tag_ok = True       # discriminant 0 = None
     d2 = {"comparisons_in_key_closures": flag_detail[:6]}
-    if flag_ok:
+    if partition is not None:
+        if partition[0]:
+            ctx.ok(r2, "extension-flag", partition[2])
+        else:
+            ctx.fail(r2, "extension-flag", partition[1], "%s:%d" % (b.file, b.line), partition[2])
+    elif flag_ok:
         ctx.ok(r2, "extension-flag", d2)
     else:
         ctx.fail(r2, "extension-flag", "the extension flag of the sort key is not `index > extended_after_index`: root components would not "
@@ -349,14 +423,18 @@ def r4(ctx):
                     continue
                 rec = [c for c in b.calls() if c.bb in a.blocks and c.name == "tag" and "RustType" in (c.callee or "")]
                 if not rec:
+                    # `Option(inner) | Default(inner, ..) => inner.tag()`: the arms only bind, the call sits where they join
+                    rec = [c for c in b.calls() if c.name == "tag" and "RustType" in (c.callee or "") and c.bb in b.reach_from(a.target)
+                           and ("as %s)" % v) in F.rd(R.positional(O.call_args(c)[0]))]
+                if not rec:
                     continue
                 nw += 1
                 arg = F.rd(R.positional(O.call_args(rec[0])[0]))
                 alts = [arg]
-                m = re.match(r"^phi\{(.*)\}$", arg)
+                m = re.search(r"phi\{([^{}]*)\}", arg)
                 if m:
-                    alts = [x.strip() for x in m.group(1).split(" | ")]
-                okw = all(re.match(r"^\(*\*?\$1 as (Option|Default)\)\.0[.\w]*( as \*const [\w:]+\))?$", x) for x in alts)
+                    alts = [arg[:m.start()] + x.strip() + arg[m.end():] for x in m.group(1).split(" | ")]
+                okw = all(re.match(r"^\(*[*&]*\(*[*&]*\$1 as (Option|Default)\)\.0[.\w]*( as \*const [\w:]+\))?$", x) for x in alts)
                 d = {"function": b.path, "variant": v, "delegates_to_tag_of": arg[:120]}
                 if okw:
                     ctx.ok(rule, "%s#%s#wrapped-type" % (name, v), d)
